@@ -69,6 +69,136 @@ def judge_c03(d):
     return None
 
 
+import os, subprocess
+
+_DRIVER = os.path.join(os.path.dirname(os.path.dirname(os.path.abspath(__file__))), "lean", ".lake", "build", "bin", "tt_driver")
+
+
+def ask_driver(queries):
+    p = subprocess.run([_DRIVER], input=("\n".join(queries) + "\n").encode(), stdout=subprocess.PIPE, timeout=600)
+    return p.stdout.decode().split("\n")[:len(queries)]
+
+
+def unhex(h):
+    return b"" if h == "-" else bytes.fromhex(h)
+
+
+def judge_c06(d):
+    q, impl, model = d["query"], d["impl"], d["model"]
+    t = q.split()
+    if impl == "panic":
+        return "decoder panicked on client input"
+    if t[1] == "decode":
+        stream = b"".join(unhex(x) for x in t[2:])
+        spec = ask_driver(["c06 spec " + (stream.hex() or "-")])[0]
+        if impl != spec:
+            return "decoded datagrams differ from the PROTOCOL.md 6.3 reading of the concatenated stream (independent decoder says %s)" % spec[:300]
+        return None
+    if t[1] == "encode":
+        return "6.4 encoding differs from the prescribed format (expected %s)" % model[:120]
+    return None
+
+
+def rfc1071_ok(pkt):
+    s = 0
+    for i in range(0, len(pkt), 2):
+        s += (pkt[i] << 8) | (pkt[i + 1] if i + 1 < len(pkt) else 0)
+    while s >> 16:
+        s = (s >> 16) + (s & 0xffff)
+    return s == 0xffff
+
+
+def judge_c11(d):
+    q, impl, model = d["query"], d["impl"], d["model"]
+    t = q.split()
+    if impl == "panic":
+        return "parser panicked on network/client input"
+    if t[1] == "checksum":
+        data = unhex(t[2])
+        if len(data) % 2 == 1:
+            data += b"\0"
+        if not rfc1071_ok(data + int(impl).to_bytes(2, "big")):
+            return "checksum %s does not verify for this byte string" % impl
+        return None
+    if t[1] in ("serialize", "serializehdr"):
+        return "serialised echo differs from type|0|checksum|id|seq|data with a verifying checksum (expected %s)" % model[:40]
+    if t[1] == "decode":
+        return "decoded requests differ from the 7.3 records of the concatenated stream (expected %s)" % model[:200]
+    if t[1] in ("responded", "encreply"):
+        return "reply/error matching or 7.4 encoding differs: expected %s" % model[:200]
+    return None
+
+
+def judge_c04(d):
+    """independent reading of the property: first matching rule, fail closed, default allow;
+    undecided (None) when the verdict hinges on behaviour the property does not fix
+    (mask and prefix of unequal length)"""
+    q, impl = d["query"], d["impl"]
+    t = q.split()
+    try:
+        conn = t[2] == "1"
+        i = 3
+        if t[i] == "none":
+            ip = None; i += 1
+        else:
+            fam, n = t[i], int(t[i + 1]); i += 2
+            ip = (fam, n)
+            if conn and fam == "6" and (n >> 32) == 0xffff:
+                ip = ("4", n & 0xffffffff)
+        rnd = None if t[i] == "none" else unhex(t[i]); i += 1
+        n_rules = int(t[i]); i += 1
+        rules = []
+        for _ in range(n_rules):
+            if t[i] in ("a", "i"):
+                c = t[i]; i += 1
+            else:
+                c = (t[i], int(t[i + 1]), int(t[i + 2])); i += 3
+            pat = None if t[i] == "-" else bytes.fromhex(t[i][1:]).decode("latin1"); i += 1
+            act = t[i]; i += 1
+            rules.append((c, pat, act))
+        if ip is None:
+            want = "allow"
+        elif rnd is None and any(p is not None for _, p, _ in rules):
+            want = "deny"
+        else:
+            want = "allow"
+            for c, pat, act in rules:
+                m = True
+                if c == "i":
+                    m = False
+                elif c != "a":
+                    fam, a, ln = c
+                    bits = 32 if fam == "n4" else 128
+                    m = (fam[1] == ip[0]) and (a >> (bits - ln)) == (ip[1] >> (bits - ln))
+                if m and pat is not None:
+                    def dec(x):
+                        try:
+                            if len(x) % 2: return None
+                            return bytes.fromhex(x) if all(ch in "0123456789abcdefABCDEF" for ch in x) else None
+                        except ValueError:
+                            return None
+                    if "/" in pat:
+                        pre, mask = pat.split("/", 1)
+                        pb, mb = dec(pre), dec(mask)
+                        if pb is None or mb is None:
+                            m = False
+                        elif len(pb) != len(mb) or len(pb) > len(rnd):
+                            return None  # not fixed by the property
+                        else:
+                            m = len(pb) > 0 and all((rnd[k] & mb[k]) == (pb[k] & mb[k]) for k in range(len(pb)))
+                    else:
+                        pb = dec(pat)
+                        m = pb is not None and rnd[:len(pb)] == pb
+                if m:
+                    want = "allow" if act == "a" else "deny"
+                    break
+        if impl != want:
+            return "verdict %s, but the first-match / fail-closed / default-allow reading of the rules gives %s" % (impl, want)
+    except Exception as e:
+        return None
+    return None
+
+
 PROPS = {
     "C03": dict(
         suites=["c03"],
@@ -86,5 +216,50 @@ PROPS = {
                  "resolver answers are an input of the model (system resolver not modelled)"],
         assumptions=["kernel connect() semantics for ::ffff:a.b.c.d (reaches a.b.c.d) motivate the mapped rule; not modelled",
                      "multicast destinations are outside the property; model follows the code there"],
+    ),
+    "C06": dict(
+        suites=["c06"],
+        judge=judge_c06,
+        level="proof",
+        rule="record streams of 1-4 records (valid, zero-length name/payload, declared length < 37, length < header+name, non-UTF-8 "
+             "name, too large, largest accepted, truncated tail; IPv4/IPv6 endpoints) decoded by the real Decoder behind the real "
+             "DatagramDecoder::read under every 1-cut, byte-at-a-time, sampled (thorough: all, for short streams) 2-/3-cut "
+             "segmentations; encoder on random datagrams; distinct by query line",
+        explanation="theorem decode_segmentation: chunked machine = independent record-level decoder on the concatenation, for all "
+                    "chunk lists; spec_decode_encode: round trip; inv_step/inv_buffer_bounded: bounded buffering, no panic",
+        trusted=["std::str::from_utf8 as transcribed in TT/Model/Utf8.lean (tied by the bad/good name corpus)"],
+        assumptions=["IPv6 addresses with 96 leading zero bits cannot be distinguished from zero-padded IPv4 on the wire (6.3); "
+                     "excluded from the round-trip theorem by an explicit predicate"],
+    ),
+    "C11": dict(
+        suites=["c11"],
+        judge=judge_c11,
+        level="proof",
+        rule="checksum on corner strings (sums at 0xfffe..0x30000, all-ff up to 65535 bytes) and random strings; Echo::serialize for "
+             "v4/v6 with corner ids/seqs and payload classes (also verified by an independent RFC 1071 check in the harness); "
+             "received packets: replies, errors quoting requests behind IPv4 headers with every IHL class and IPv6 extension-header "
+             "chains with right/wrong lengths, truncations, exhaustive short strings over a reduced alphabet; 7.3 streams under all "
+             "1-cuts, byte-at-a-time and sampled multi-cuts",
+        explanation="theorems checksum_verifies (all payloads <= 65535 bytes), request_decode_segmentation, request_fields_faithful, "
+                    "*_no_panic, v4_error_designates, reply_format, waiter-table invariants",
+        trusted=["ICMPv6 checksum is computed by the kernel for raw ICMPv6 sockets (not modelled)",
+                 "waiter table: model tied to icmp_forwarder.rs by reading only (raw-socket suite not built yet)"],
+        assumptions=["two clients using the same identifier/sequence number with prefix-equal data share one waiter key "
+                     "(Echo::eq); theorems about delivery are stated per matching waiter"],
+    ),
+    "C04": dict(
+        suites=["c04"],
+        judge=judge_c04,
+        level="proof",
+        rule="every single rule over 13 CIDR spellings (valid v4/v6, /0, /32, host bits set, mapped /104, malformed) x 18 patterns "
+             "(prefix, upper case, prefix/mask equal, longer, shorter, odd hex, non-hex, empty sides, double slash, over-long) x 2 "
+             "actions against 9 peers (v4, mapped, v6, absent) x 12 randoms (absent, empty, short, 32 bytes), random rule lists of "
+             "length 2..5 (thorough ..12), both through RulesEngine::evaluate and Core::evaluate_connection_rules; rules files "
+             "through the real Settings deserialiser; real Core::listen probe: denied peer reads EOF before any ServerHello byte",
+        explanation="theorems first_match_wins, default_allow, fail_closed_without_random, prefix/mask semantics, "
+                    "malformed_never_matches, mapped_peer_eq_v4_peer, deny_precedes_handshake about TT/Model/Rules.lean",
+        trusted=["ipnet CIDR parsing and hex::decode (the harness passes parsed CIDRs to the model; hex decoding is modelled)",
+                 "accept-path ordering is a hand transcription of core.rs, tied by the live listener probe (TCP only; QUIC path read only)"],
+        assumptions=["QUIC: rules are evaluated after the QUIC handshake completes but before any HTTP/3 codec exists, as the property states"],
     ),
 }
